@@ -68,6 +68,7 @@ func genLDOpts(t *rapid.T, n int) m.LDOpts {
 		KeyRot:     rapid.IntRange(0, 3).Draw(t, "keyrot"),
 		Unwrap1:    rapid.Bool().Draw(t, "unwrap1"),
 		TypeString: rapid.Bool().Draw(t, "typestr"),
+		TypeRev:    rapid.Bool().Draw(t, "typerev"),
 		NativeLit:  rapid.Bool().Draw(t, "native"),
 		DupValues:  rapid.Bool().Draw(t, "dup"),
 		SplitNodes: rapid.Bool().Draw(t, "split"),
